@@ -71,7 +71,9 @@ func genSimSpec(r *simrt.Rand, estSteps int) SimSpec {
 	case 4, 5, 6:
 		p.Policy = simrt.PolPCT
 		p.PCTDepth = 1 + r.Intn(3)
-		p.PCTSteps = estSteps
+		// the priority change points are drawn in [0, PCTSteps): an estimate that is too large wastes
+		// them beyond the end of the run, one that is too small never preempts late; draw it
+		p.PCTSteps = []int{estSteps/3 + 2, estSteps / 2, estSteps, estSteps}[r.Intn(4)]
 	default:
 		p.Policy = simrt.PolSticky
 		p.PreemptP = []float64{0.05, 0.2, 0.5}[r.Intn(3)]
